@@ -20,11 +20,14 @@ RULES = {
     " ; the parser replaces its current token only by the tokenizer's next token (no token rewriting)",
     "R5": "operator agreement: each arithmetic dunder of SymbolicDim applies the operator its name denotes with "
     "operands in the right order; each parser operator token builds the matching SymPy form",
+    "R7": "whole expressions: what a SymbolicDim method returns (or wraps in a new SymbolicDim) is never built from a "
+    "sub-term projection of a SymPy expression (.args, .args[i], .expr, .as_*()): a branch of a Piecewise, a numerator, one "
+    "argument of Max stand for a different function of the symbols than the expression they were taken from",
     "R6": "integer bindings are looked up by presence, never by truthiness: a value taken from a `Mapping[str, int]` "
     "parameter (bindings[...] / bindings.get(...)) is not used as an operand of and/or or as a bare condition - a "
     "binding of 0 (an empty dimension) is falsy and would be treated as absent",
 }
-FLOORS = {"R1": 6, "R2": 3, "R3": 3, "R4": 6, "R5": 18, "R6": 2}
+FLOORS = {"R1": 6, "R2": 3, "R3": 3, "R4": 6, "R5": 18, "R6": 2, "R7": 15}
 EXPLANATION = (
     "Derives the printer-side vocabulary from the sympy constructors called in SymbolicDim's methods and the "
     "parser-side grammar (tiers, tokens, associativity, operator→SymPy form) from the recursive-descent parser's "
@@ -445,7 +448,64 @@ def rule_r6(ctx):
     ctx.require(n >= 2, f"only {n} functions with a Mapping[str, int] bindings parameter found")
 
 
+_PROJECTIONS = re.compile(r"^(args|expr|cond|func|as_\w+|subs_first|lhs|rhs|numerator|denominator|p|q)$")
+_PROJ_EXEMPT = {"p", "q", "numerator", "denominator"}  # of numbers: the value itself, not a sub-term of a formula
+
+
+def _projection_in(e):
+    for x in ast.walk(e):
+        if isinstance(x, ast.Attribute) and _PROJECTIONS.match(x.attr) and x.attr not in _PROJ_EXEMPT:
+            # `self.args`-like receivers that are plainly not SymPy values are left alone
+            if isinstance(x.value, ast.Name) and x.value.id in ("self", "cls"):
+                continue
+            return x
+    return None
+
+
+def rule_r7(ctx):
+    repo = ctx.repo
+    dim = repo.cls("onnx_ir._core:SymbolicDim")
+    ctx.require(dim is not None, "SymbolicDim not found")
+    funcs = [m for m in dim.methods.values() if not isinstance(m.node, ast.Lambda)]
+    funcs += [f for f in repo.modules[SYM].all_funcs if not isinstance(f.node, ast.Lambda) and f.owner_class is None]
+    n = 0
+    for f in funcs:
+        rets = [x for x in own_nodes(f.node) if isinstance(x, ast.Return) and x.value is not None]
+        if not rets or all(isinstance(r.value, ast.Constant) or (isinstance(r.value, ast.Name) and r.value.id in f.params) for r in rets):
+            continue  # answers with a parameter or a literal: nothing is built
+        n += 1
+        # names that (transitively) hold a projection
+        tainted: dict[str, ast.AST] = {}
+        changed = True
+        while changed:
+            changed = False
+            for a in own_nodes(f.node):
+                if isinstance(a, (ast.Assign, ast.AnnAssign, ast.AugAssign, ast.NamedExpr)) and getattr(a, "value", None) is not None:
+                    tg = a.targets if isinstance(a, ast.Assign) else [a.target]
+                    src = _projection_in(a.value) or next((tainted[x.id] for x in ast.walk(a.value) if isinstance(x, ast.Name) and x.id in tainted), None)
+                    if src is None:
+                        continue
+                    for t in tg:
+                        for x in ast.walk(t):
+                            if isinstance(x, ast.Name) and x.id not in tainted:
+                                tainted[x.id] = src
+                                changed = True
+        bad = None
+        for r in rets:
+            bad = _projection_in(r.value) or next((tainted[x.id] for x in ast.walk(r.value) if isinstance(x, ast.Name) and x.id in tainted), None)
+            if bad is not None:
+                break
+        ctx.check("R7", f"{f.local}: the result is built from whole SymPy expressions", bad is None, f, bad if bad is not None else f.node,
+                  f"{f.local} returns a value built from `{short(norm(bad)) if bad is not None else ''}` - a sub-term of a SymPy expression: the returned dimension "
+                  "is a different function of the symbols (e.g. one branch of a Piecewise is singular where another branch applied), so "
+                  "simplification/evaluation changes results for some bindings",
+                  how="taint from attribute projections (.args/.expr/.as_*) through locals to the returned expression",
+                  construct="result built from a sub-term projection")
+    ctx.require(n >= 15, f"only {n} value-returning symbolic functions found")
+
+
 def run(ctx):
+    rule_r7(ctx)
     rule_r6(ctx)
     rule_r1(ctx)
     rule_r2_r3_r4(ctx)
